@@ -54,6 +54,8 @@ pub type Responder = Box<dyn FnMut(&PeerId, &[u8]) -> (Frames, After) + Send>;
 #[derive(Default)]
 pub struct ScriptShared {
     pub responders: BTreeMap<String, Responder>,
+    /// protocols on which the remote sends no request: the responder is called at once with an empty request
+    pub no_request: std::collections::BTreeSet<String>,
     /// (sequence number, peer, connection, event)
     pub log: Vec<(u64, PeerId, ConnectionId, SOut)>,
 }
@@ -215,7 +217,8 @@ impl ConnectionHandler for ScriptHandler {
                 let peer = self.peer;
                 self.tasks.push(
                     async move {
-                        let request = read_frame(&mut stream).await.ok().flatten();
+                        let speaks_first = shared.lock().unwrap().no_request.contains(&proto);
+                        let request = if speaks_first { Some(vec![]) } else { read_frame(&mut stream).await.ok().flatten() };
                         let (frames, after) = match (&request, shared.lock().unwrap().responders.get_mut(&proto)) {
                             (Some(r), Some(f)) => f(&peer, r),
                             _ => (vec![], After::Drop),
